@@ -53,7 +53,7 @@ type c07Frame struct {
 func c07Run(e *Env, tlsShim bool) {
 	t := e.Tape
 	maxSize := []uint32{65536, 1152, 300, 70000, 4096}[t.Choose(5)]
-	cacheSize := []uint16{2048, 1, 2, 7, 64, 4096}[t.Choose(6)]
+	cacheSize := []uint16{2048, 1, 2, 7, 64, 4096, 0}[t.Choose(7)] // 0: the option accepts it
 	nMsg := 1 + t.Choose(12)
 	// the connection's message pool recycles objects in two runs out of three (a frame without a payload decoded
 	// into an object that carried one before must not inherit it)
